@@ -1,27 +1,25 @@
 #!/usr/bin/env python3
 """Soundness self-check of the bounded stand-in: on the UNCHANGED tree the run-time evaluation of every
 contract (boundary corpus + random samples, chosen-output PRF) must find no violation.
-   tools/bounded_all.py [module ...]"""
+   tools/bounded_all.py [module ...]     (one process per contract, 60 s limit each)"""
 import sys, os, time, json
-sys.path.insert(0, os.path.dirname(os.path.dirname(os.path.abspath(__file__))))
+HERE = os.path.dirname(os.path.dirname(os.path.abspath(__file__)))
+sys.path.insert(0, HERE)
 sys.path.insert(0, os.environ.get("VERIF_REPO", "/repo"))
 import importlib
-import concurrent.futures as cf
 import multiprocessing as mp
 import props
 
 
-def one(spec):
-    sys.path.insert(0, os.path.dirname(os.path.dirname(os.path.abspath(__file__))))
+def one(spec, q):
     from pyvc.check import find_contract
     from pyvc.bounded import bounded_contract
     c = find_contract(spec)
-    t = time.time()
     try:
-        r = bounded_contract(c, 1, n=60, budget_s=25)
+        r = bounded_contract(c, 1, n=40, budget_s=20)
     except Exception as e:
-        return spec, dict(verdict="ERROR", detail=repr(e)), time.time() - t
-    return spec, r, time.time() - t
+        r = dict(verdict="ERROR", detail=repr(e))
+    q.put({k: (v if k != "replay" else {kk: vv for kk, vv in v.items() if kk in ("failed", "observed", "detail")}) for k, v in r.items() if k in ("verdict", "evaluations", "skipped", "replay", "detail", "model")})
 
 
 if __name__ == "__main__":
@@ -30,12 +28,41 @@ if __name__ == "__main__":
     for m in mods:
         mod = importlib.import_module(m)
         specs += [f"{m}:{type(c).__name__}" for c in mod.CONTRACTS]
-    bad = []
-    with cf.ProcessPoolExecutor(max_workers=14, mp_context=mp.get_context("fork")) as ex:
-        for spec, r, dt in ex.map(one, specs):
-            v = r["verdict"]
-            if v != "HELD" or r.get("evaluations", 0) == 0:
-                print(f"{v:9s} evals={r.get('evaluations')} skipped={r.get('skipped')} {dt:5.1f}s {spec} {str(r.get('replay', r.get('detail')))[:300]}", flush=True)
-            if v == "VIOLATED":
-                bad.append(spec)
-    print("contracts:", len(specs), "false violations:", len(bad))
+    ctx = mp.get_context("fork")
+    bad, stuck, zero = [], [], []
+    running = []
+    pending = list(specs)
+    results = {}
+    while pending or running:
+        while pending and len(running) < 12:
+            s = pending.pop(0)
+            q = ctx.Queue()
+            p = ctx.Process(target=one, args=(s, q))
+            p.start()
+            running.append((s, p, q, time.time()))
+        time.sleep(0.5)
+        for item in list(running):
+            s, p, q, t0 = item
+            if not p.is_alive() or time.time() - t0 > 90:
+                r = None
+                try:
+                    r = q.get(timeout=1) if not q.empty() else None
+                except Exception:
+                    pass
+                if p.is_alive():
+                    p.terminate()
+                    stuck.append(s)
+                    print("STUCK    ", s, flush=True)
+                elif r is None:
+                    print("NORESULT ", s, flush=True)
+                else:
+                    if r["verdict"] == "VIOLATED":
+                        bad.append(s)
+                        print("VIOLATED ", s, json.dumps(r, default=str)[:400], flush=True)
+                    elif r["verdict"] == "ERROR":
+                        print("ERROR    ", s, r.get("detail"), flush=True)
+                    elif not r.get("evaluations"):
+                        zero.append(s)
+                running.remove(item)
+    print("contracts:", len(specs), "false violations:", len(bad), "stuck:", len(stuck), "no concrete evaluation (symbolic-only inputs):", len(zero))
+    print("zero-eval:", zero[:80])
